@@ -162,6 +162,8 @@ CHECKS = {
         "groups": [
             {"pkg": "./server/commitlog", "overlay": "commitlog", "pkgname": "commitlog",
              "harnesses": [
+                 {"name": "VerifC08WithRetention", "quick": {"msgs": 3}, "thorough": {"msgs": 4}, "max-paths": 1000000,
+                  "covers": ["done", "retention-dropped", "both"], "targets": ["deleteCleaner).Clean", "compactCleaner).Compact", "commitLog).Clean"]},
                  {"name": "VerifC08Compact", "quick": {"msgs": 3, "livereader": 0}, "thorough": {"msgs": 3, "livereader": 1},
                   "covers": ["done", "multi-segment", "append-during-compaction"], "max-paths": 1000000,
                   "targets": ["compactCleaner).cleanSegment", "compactCleaner).scanSegments", "ReverseReader).ReadMessage"]},
